@@ -16,7 +16,7 @@ theorem fillOne_inv {cfg : Cfg} {s : State} (hinv : Inv cfg s) (p : Addr) (t : T
     · rename_i a ec hsub hen
       split
       · rename_i pa hmiss hpa
-        refine ⟨hinv.confs, hinv.pals, hinv.live, hinv.cache, hinv.nc, hinv.subs, ?_⟩
+        refine ⟨hinv.confs, hinv.pals, hinv.live, hinv.cache, hinv.nc, hinv.subs, ?_, hinv.cur, hinv.subcur, hinv.glob, hinv.gp⟩
         intro hko e' ec' a' v' cols h1 h2
         simp only [] at h1
         by_cases he : e' = e
@@ -248,6 +248,134 @@ theorem colorLines_pure {cfg : Cfg} (hko : cfg.keyByObj = true) {s : State} (hin
         rw [← e2]
         cases l.kind <;> rfl
 
+theorem colorChunks_eq (s : State) (p : Addr) (top : ClassId) (f : Tag → Color) :
+    ∀ (chs : List SChunk) (out : List Chunk),
+      (∀ ch ∈ chs, ∀ col, tagColor s p top ch.tag = .ok col → col = f ch.tag) →
+      colorChunks s p top chs = .ok out → out = paintChunks f chs := by
+  intro chs
+  induction chs with
+  | nil => intro out _ h; simp [colorChunks] at h; subst h; rfl
+  | cons ch rest ih =>
+    intro out hf h
+    simp only [colorChunks, bind, Except.bind] at h
+    cases h1 : tagColor s p top ch.tag with
+    | error e => simp [h1] at h
+    | ok col =>
+      simp only [h1] at h
+      cases h2 : colorChunks s p top rest with
+      | error e => simp [h2] at h
+      | ok cs =>
+        simp only [h2] at h
+        cases h
+        have e1 := hf ch (by simp) col h1
+        have e2 := ih cs (fun x hx => hf x (by simp [hx])) h2
+        simp [paintChunks, e1] at e2 ⊢
+        exact e2
+
+theorem colorLines_eq (s : State) (p : Addr) (top : ClassId) (f : Tag → Color) :
+    ∀ (ls : List SLine) (out : List (List Chunk)),
+      (∀ l ∈ ls, ∀ ch ∈ l.chunks, ∀ col, tagColor s p top ch.tag = .ok col → col = f ch.tag) →
+      colorLines s p top ls = .ok out → out = paintLines f ls := by
+  intro ls
+  induction ls with
+  | nil => intro out _ h; simp [colorLines] at h; subst h; rfl
+  | cons l rest ih =>
+    intro out hf h
+    simp only [colorLines, bind, Except.bind] at h
+    cases h1 : colorChunks s p top l.chunks with
+    | error e => simp [h1] at h
+    | ok cs =>
+      simp only [h1] at h
+      cases h2 : colorLines s p top rest with
+      | error e => simp [h2] at h
+      | ok lsout =>
+        simp only [h2] at h
+        cases h
+        have e1 := colorChunks_eq s p top f l.chunks cs (hf l (by simp)) h1
+        have e2 := ih lsout (fun x hx => hf x (by simp [hx])) h2
+        simp only [paintLines, List.map_cons, paintLine] at e2 ⊢
+        subst e1
+        rw [← e2]
+        cases l.kind <;> rfl
+
+/-- the colour of a tag when the object's palette is (still) in the palette cache of its configuration:
+the cached palette and the sub-palettes it memoised have the colours the configuration gives now -/
+theorem tagColor_steady {cfg : Cfg} (hko : cfg.keyByObj = true) {s : State} (hinv : Inv cfg s) {k : ConfId} {c : Conf}
+    (hk : s.confs.lookup k = some c) {p : Addr} {pp : Pal} (hp : s.heap.lookup p = some pp)
+    (hcached : c.cache.lookup pp.cls = some p) (t : Tag) {col : Color}
+    (h : tagColor s p pp.cls t = .ok col) : col = pureColor cfg c false t := by
+  -- a palette with the current colours of its class
+  have fromSnap : ∀ (q : Pal) (i : Nat) (col' : Color), (∀ ci, cfg.classes[q.cls]? = some ci → q.colors = snapshot cfg ci c) →
+      (∃ ci, cfg.classes[q.cls]? = some ci) → q.colors[i]? = some col' → col' = pureColor cfg c false (.pal q.cls i) := by
+    intro q i col' hsn ⟨ci, hci⟩ hc
+    rw [hsn ci hci] at hc
+    simp only [snapshot, List.getElem?_map] at hc
+    cases hx : ci.localSyntax[i]? with
+    | none => simp [hx] at hc
+    | some x =>
+      simp only [hx, Option.map_some] at hc
+      cases hc
+      simp [pureColor, hci, hx]
+  have own : ∀ ci, cfg.classes[pp.cls]? = some ci → pp.colors = snapshot cfg ci c :=
+    fun ci hci => hinv.cur k c pp.cls p pp ci hk hcached hp hci
+  have ownC : ∃ ci, cfg.classes[pp.cls]? = some ci := by
+    obtain ⟨ci, hci, _⟩ := hinv.pals p pp hp; exact ⟨ci, hci⟩
+  have sub : ∀ cls a, subAddr s p cls = .ok a →
+      ∃ q, s.heap.lookup a = some q ∧ q.cls = cls ∧ (∀ ci, cfg.classes[q.cls]? = some ci → q.colors = snapshot cfg ci c) ∧
+        (∃ ci, cfg.classes[q.cls]? = some ci) := by
+    intro cls a h1
+    unfold subAddr at h1
+    split at h1
+    · rename_i b hb
+      cases h1
+      obtain ⟨_, pb, _, e2, e3, _⟩ := hinv.subs p cls a hb
+      refine ⟨pb, e2, e3, ?_, ?_⟩
+      · intro ci hci
+        rw [e3] at hci
+        exact hinv.subcur k c pp.cls p cls a pb ci hk hcached hb e2 hci
+      · obtain ⟨ci, hci, _⟩ := hinv.pals a pb e2; exact ⟨ci, hci⟩
+    · cases h1
+  cases t with
+  | plain => simp [tagColor] at h; subst h; rfl
+  | pal cls i =>
+    simp only [tagColor, bind, Except.bind] at h
+    by_cases hcp : cls = pp.cls
+    · simp only [hcp, if_true] at h
+      simp only [getPal, hp] at h
+      have := fromSnap pp i col own ownC (nth_some h)
+      rw [hcp]; exact this
+    · simp only [hcp, if_false] at h
+      cases ha : subAddr s p cls with
+      | error e => simp [ha] at h
+      | ok a =>
+        simp only [ha] at h
+        obtain ⟨q, hq, hqc, hqs, hqC⟩ := sub cls a ha
+        simp only [getPal, hq] at h
+        have := fromSnap q i col hqs hqC (nth_some h)
+        rw [hqc] at this; exact this
+  | enum e v cls i =>
+    simp only [tagColor, bind, Except.bind] at h
+    cases ha : subAddr s p cls with
+    | error er => simp [ha] at h
+    | ok a =>
+      simp only [ha] at h
+      obtain ⟨q, hq, hqc, hqs, hqC⟩ := sub cls a ha
+      have hgoal : ∀ col', q.colors[i]? = some col' → col' = pureColor cfg c false (.enum e v cls i) := by
+        intro col' hc
+        have := fromSnap q i col' hqs hqC hc
+        rw [hqc] at this; exact this
+      split at h
+      · cases h
+      · rename_i ec hen
+        split at h
+        · rename_i cols hhit
+          obtain ⟨q', hq', hcols⟩ := hinv.enums hko e ec a v cols hen hhit
+          rw [hq] at hq'; cases hq'
+          rw [hcols] at h
+          exact hgoal col (nth_some h)
+        · simp only [getPal, hq] at h
+          exact hgoal col (nth_some h)
+
 /-- `render`: the invariant survives, and the output is the shape painted with the colours that
 the configuration (as it is after the rendering) gives — for every no-colour rendering, and for
 coloured renderings under a configuration whose descriptions were all resolved at creation -/
@@ -257,7 +385,8 @@ theorem render_spec {cfg : Cfg} (hcfg : cfgOk cfg = true) (hko : cfg.keyByObj = 
     Inv cfg s' ∧
     ∃ c c', s.confs.lookup k = some c ∧ s'.confs.lookup k = some c' ∧ c'.closed = c.closed ∧ c'.noColor = c.noColor ∧
       ((nc = false → c.closed = true ∧ ∀ t ∈ sh.tags, tagStable cfg t = true) →
-        out = paintLines (pureColor cfg c' nc) sh.lines) := by
+        out = paintLines (pureColor cfg c' nc) sh.lines) ∧
+      (nc = false → c'.smap.length = c.smap.length → out = paintLines (pureColor cfg c' false) sh.lines) := by
   unfold render at h
   simp only [bind, Except.bind] at h
   cases h1 : mkPalette cfg alloc sh.top k nc s with
@@ -265,7 +394,7 @@ theorem render_spec {cfg : Cfg} (hcfg : cfgOk cfg = true) (hko : cfg.keyByObj = 
   | ok r =>
     obtain ⟨s1, p⟩ := r
     simp only [h1] at h
-    obtain ⟨hinv1, hfr1, pp, hp1, hpc, hpn, hpk⟩ := mkPalette_spec hcfg hal hinv h1
+    obtain ⟨hinv1, hfr1, ⟨pp, hp1, hpc, hpn, hpk⟩, hpcache⟩ := mkPalette_spec hcfg hal hinv h1
     cases h2 : getSubs cfg alloc p sh.subs s1 with
     | error e => simp [h2] at h
     | ok s2 =>
@@ -289,11 +418,24 @@ theorem render_spec {cfg : Cfg} (hcfg : cfgOk cfg = true) (hko : cfg.keyByObj = 
             | none => simp [hci, hk] at h1
             | some c => exact ⟨c, rfl⟩
         obtain ⟨c, hk⟩ := hk0
-        obtain ⟨c2, hk2, hcl2, hnc2⟩ := (hfr1.trans hfr2).confs k c hk
-        refine ⟨c, c2, hk, by rw [hconfs3]; exact hk2, hcl2, hnc2, ?_⟩
-        intro hst
+        obtain ⟨c2, hk2, hcl2, hnc2, _, _⟩ := (hfr1.trans hfr2).confs k c hk
         have hp2 := hfr2.heap p pp hp1
         rw [← hpc] at h3
+        refine ⟨c, c2, hk, by rw [hconfs3]; exact hk2, hcl2, hnc2, ?_, ?_⟩
+        rotate_left
+        · -- steady state: the configuration learnt nothing, so the cached top palette stayed cached
+          intro hf hlen
+          obtain ⟨c1, hk1, hc1⟩ := hpcache hf
+          obtain ⟨c1', e1, _, _, l1, _⟩ := hfr1.confs k c hk
+          rw [hk1] at e1; cases e1
+          obtain ⟨c2', e2, _, _, l2, same2⟩ := hfr2.confs k c1 hk1
+          rw [hk2] at e2; cases e2
+          have hl12 : c2.smap.length = c1.smap.length := by omega
+          have hcached : c2.cache.lookup pp.cls = some p := by rw [hpc]; exact (same2 hl12).2 sh.top p hc1
+          apply colorLines_eq s2 p pp.cls _ sh.lines out _ h3
+          intro l _ ch _ col hcol
+          exact tagColor_steady hko hinv2 hk2 hp2 hcached ch.tag hcol
+        intro hst
         apply colorLines_pure hko hinv2 hk2 hp2 hpn hpk sh.lines out _ h3
         intro hf
         refine ⟨by rw [hcl2]; exact (hst hf).1, ?_⟩
@@ -312,7 +454,7 @@ theorem gc_inv {cfg : Cfg} {s : State} (hinv : Inv cfg s) (keepP : List Addr) (k
   split
   · rename_i hok
     simp only [gcOk, Bool.and_eq_true, List.all_eq_true, Bool.or_eq_true, Bool.not_eq_true'] at hok
-    obtain ⟨⟨⟨⟨⟨⟨_, _⟩, hnc⟩, hen⟩, hheap⟩, hsubs⟩, hconfs⟩ := hok
+    obtain ⟨⟨⟨⟨⟨⟨_, hkg⟩, hnc⟩, hen⟩, hheap⟩, hsubs⟩, hconfs⟩ := hok
     have heapLk : ∀ a, (List.lookup a (s.heap.filter fun e => keepP.contains e.1)) =
         if keepP.contains a then s.heap.lookup a else none := fun a => lookup_filter_key (fun x => keepP.contains x) a s.heap
     have confLk : ∀ k, (List.lookup k (s.confs.filter fun e => keepC.contains e.1)) =
@@ -320,7 +462,36 @@ theorem gc_inv {cfg : Cfg} {s : State} (hinv : Inv cfg s) (keepP : List Addr) (k
     have keepHeap : ∀ a p, keepP.contains a = true → s.heap.lookup a = some p →
         List.lookup a (s.heap.filter fun e => keepP.contains e.1) = some p := by
       intro a p h1 h2; rw [heapLk, h1]; exact h2
-    refine ⟨?_, ?_, ?_, ?_, ?_, ?_, ?_⟩
+    refine ⟨?_, ?_, ?_, ?_, ?_, ?_, ?_, ?_, ?_, ?_, ?_⟩
+    rotate_left 7
+    · intro k c cls a p ci h hc hp hci
+      simp only [] at h hp
+      rw [confLk] at h
+      rw [heapLk] at hp
+      split at h
+      · split at hp
+        · exact hinv.cur k c cls a p ci h hc hp hci
+        · cases hp
+      · cases h
+    · intro k c cls pa c2 b pb ci2 h hc hsb hp hci
+      simp only [] at h hp hsb
+      rw [confLk] at h
+      rw [heapLk] at hp
+      rw [lookup_filter_key (fun (x : Addr × ClassId) => keepP.contains x.1) (pa, c2) s.subs] at hsb
+      split at h
+      · split at hp
+        · split at hsb
+          · exact hinv.subcur k c cls pa c2 b pb ci2 h hc hsb hp hci
+          · cases hsb
+        · cases hp
+      · cases h
+    · simp only []
+      rw [confLk, hkg]
+      exact hinv.glob
+    · intro c0 ci0 h1 h2
+      simp only [] at h1 ⊢
+      rw [confLk, hkg] at h1
+      exact hinv.gp c0 ci0 h1 h2
     · intro k c h
       simp only [] at h
       rw [confLk] at h
@@ -443,7 +614,48 @@ theorem newConf_inv {cfg : Cfg} (hcfg : cfgOk cfg = true) {k : ConfId} {nc : Boo
         intro k' c' hl
         have : k' ≠ k := by intro e; subst e; rw [hnone] at hl; cases hl
         rw [lookup_cons_ne _ _ this]; exact hl
-      refine ⟨?_, ?_, ?_, ?_, hinv.nc, hinv.subs, hinv.enums⟩
+      have hgk : s.global ≠ k := by
+        intro e
+        have := hinv.glob
+        rw [e, hnone] at this
+        simp at this
+      have hcache0 : c.cache = [] := by
+        unfold mkConf at hm
+        split at hm
+        · cases hm
+        · simp only [] at hm
+          split at hm
+          · cases hm
+          · split at hm
+            · cases hm
+            · cases hm
+              simp only []
+              have h1 := (addItems_fields ((emptyConf nc).addItems items) cfg.builtin).2.2.2
+              have h2 := (addItems_fields (emptyConf nc) items).2.2.2
+              rcases h1 with h1 | h1
+              · rcases h2 with h2 | h2
+                · rw [h1, h2]; rfl
+                · rw [h1, h2]
+              · exact h1
+      refine ⟨?_, ?_, ?_, ?_, hinv.nc, hinv.subs, hinv.enums, ?_, ?_, ?_, ?_⟩
+      rotate_left 4
+      · intro k' c' cls a p ci hl hc hp hci
+        simp only [] at hl
+        by_cases e : k' = k
+        · subst e; rw [lookup_cons_eq] at hl; cases hl; rw [hcache0] at hc; simp at hc
+        · exact hinv.cur k' c' cls a p ci (hold k' c' e hl) hc hp hci
+      · intro k' c' cls pa c2 b pb ci2 hl hc hsb hp hci
+        simp only [] at hl
+        by_cases e : k' = k
+        · subst e; rw [lookup_cons_eq] at hl; cases hl; rw [hcache0] at hc; simp at hc
+        · exact hinv.subcur k' c' cls pa c2 b pb ci2 (hold k' c' e hl) hc hsb hp hci
+      · simp only []
+        rw [lookup_cons_ne _ _ hgk]
+        exact hinv.glob
+      · intro c0 ci0 h1 h2
+        simp only [] at h1 ⊢
+        rw [lookup_cons_ne _ _ hgk] at h1
+        exact hinv.gp c0 ci0 h1 h2
       · intro k' c' hl
         simp only [] at hl
         by_cases e : k' = k
@@ -488,13 +700,41 @@ theorem newConf_inv {cfg : Cfg} (hcfg : cfgOk cfg = true) {k : ConfId} {nc : Boo
         · exact hinv.cache k' c' cls a (hold k' c' e hl) hc
 
 theorem dropConf_inv {cfg : Cfg} {s : State} (hinv : Inv cfg s) (k : ConfId) : Inv cfg (dropConf k s) :=
-  ⟨hinv.confs, hinv.pals, hinv.live, hinv.cache, hinv.nc, hinv.subs, hinv.enums⟩
+  ⟨hinv.confs, hinv.pals, hinv.live, hinv.cache, hinv.nc, hinv.subs, hinv.enums, hinv.cur, hinv.subcur, hinv.glob, hinv.gp⟩
 
-theorem syncGp_inv {cfg : Cfg} {s : State} (hinv : Inv cfg s) : Inv cfg (syncGp cfg s) := by
-  unfold syncGp
-  split
-  · exact ⟨hinv.confs, hinv.pals, hinv.live, hinv.cache, hinv.nc, hinv.subs, hinv.enums⟩
-  · exact hinv
+/-- re-syncing establishes the `gp` part, whatever it was before -/
+theorem syncGp_inv {cfg : Cfg} {s : State}
+    (confs : ∀ k c, s.confs.lookup k = some c → ConfOk cfg c)
+    (pals : ∀ a p, s.heap.lookup a = some p → PalOk cfg s.confs p)
+    (live : ∀ a p, s.heap.lookup a = some p → (s.confs.lookup p.conf).isSome)
+    (cache : ∀ k c cls a, s.confs.lookup k = some c → c.cache.lookup cls = some a →
+      ∃ p, s.heap.lookup a = some p ∧ p.cls = cls ∧ p.conf = k ∧ p.noColor = false)
+    (nc : ∀ cls a, s.ncCache.lookup cls = some a → ∃ p, s.heap.lookup a = some p ∧ p.cls = cls ∧ p.noColor = true)
+    (subs : ∀ pa c b, s.subs.lookup (pa, c) = some b → ∃ pp pb, s.heap.lookup pa = some pp ∧ s.heap.lookup b = some pb ∧
+      pb.cls = c ∧ pb.noColor = pp.noColor ∧ (pp.noColor = false → pb.conf = pp.conf))
+    (enums : cfg.keyByObj = true → ∀ e ec a v cols, s.enums.lookup e = some ec → ec.lookup (a, v) = some cols →
+      ∃ p, s.heap.lookup a = some p ∧ cols = p.colors)
+    (cur : ∀ k c cls a p ci, s.confs.lookup k = some c → c.cache.lookup cls = some a → s.heap.lookup a = some p →
+      cfg.classes[cls]? = some ci → p.colors = snapshot cfg ci c)
+    (subcur : ∀ k c cls pa c2 b pb ci2, s.confs.lookup k = some c → c.cache.lookup cls = some pa →
+      s.subs.lookup (pa, c2) = some b → s.heap.lookup b = some pb → cfg.classes[c2]? = some ci2 →
+      pb.colors = snapshot cfg ci2 c)
+    (glob : (s.confs.lookup s.global).isSome) : Inv cfg (syncGp cfg s) := by
+  obtain ⟨e1, e2, e3, e4, e5, _, e7⟩ := syncGp_fields cfg s
+  refine ⟨?_, ?_, ?_, ?_, ?_, ?_, ?_, ?_, ?_, ?_, ?_⟩
+  · rw [e1]; exact confs
+  · rw [e1, e2]; exact pals
+  · rw [e1, e2]; exact live
+  · rw [e1, e2]; exact cache
+  · rw [e4, e2]; exact nc
+  · rw [e3, e2]; exact subs
+  · rw [e5, e2]; exact enums
+  · rw [e1, e2]; exact cur
+  · rw [e1, e2, e3]; exact subcur
+  · rw [e1, e7]; exact glob
+  · intro c ci h1 h2
+    rw [e1, e7] at h1
+    exact syncGp_gp cfg s c ci h1 h2
 
 theorem setGlobal_inv {cfg : Cfg} {k : ConfId} {s s' : State} (hinv : Inv cfg s)
     (h : setGlobal cfg k s = .ok s') : Inv cfg s' := by
@@ -505,8 +745,12 @@ theorem setGlobal_inv {cfg : Cfg} {k : ConfId} {s s' : State} (hinv : Inv cfg s)
   | ok c =>
     simp only [hg] at h
     cases h
-    apply syncGp_inv
-    exact ⟨hinv.confs, hinv.pals, hinv.live, hinv.cache, hinv.nc, hinv.subs, hinv.enums⟩
+    apply syncGp_inv (s := { s with global := k }) hinv.confs hinv.pals hinv.live hinv.cache hinv.nc hinv.subs hinv.enums hinv.cur hinv.subcur
+    simp only []
+    unfold getConf at hg
+    split at hg
+    · rename_i c0 hc0; simp [hc0]
+    · cases hg
 
 theorem newEnum_inv {cfg : Cfg} {e : EnumId} {s s' : State} (hinv : Inv cfg s) (h : newEnum e s = .ok s') :
     Inv cfg s' := by
@@ -514,7 +758,7 @@ theorem newEnum_inv {cfg : Cfg} {e : EnumId} {s s' : State} (hinv : Inv cfg s) (
   split at h
   · cases h
   · cases h
-    refine ⟨hinv.confs, hinv.pals, hinv.live, hinv.cache, hinv.nc, hinv.subs, ?_⟩
+    refine ⟨hinv.confs, hinv.pals, hinv.live, hinv.cache, hinv.nc, hinv.subs, ?_, hinv.cur, hinv.subcur, hinv.glob, hinv.gp⟩
     intro hko e' ec a v cols h1 h2
     simp only [] at h1
     by_cases he : e' = e
@@ -522,7 +766,7 @@ theorem newEnum_inv {cfg : Cfg} {e : EnumId} {s s' : State} (hinv : Inv cfg s) (
     · rw [lookup_cons_ne _ _ he] at h1; exact hinv.enums hko e' ec a v cols h1 h2
 
 theorem dropEnum_inv {cfg : Cfg} {s : State} (hinv : Inv cfg s) (e : EnumId) : Inv cfg (dropEnum e s) := by
-  refine ⟨hinv.confs, hinv.pals, hinv.live, hinv.cache, hinv.nc, hinv.subs, ?_⟩
+  refine ⟨hinv.confs, hinv.pals, hinv.live, hinv.cache, hinv.nc, hinv.subs, ?_, hinv.cur, hinv.subcur, hinv.glob, hinv.gp⟩
   intro hko e' ec a v cols h1 h2
   simp only [dropEnum] at h1
   rw [lookup_filter_key (fun x => x ≠ e)] at h1
@@ -566,45 +810,49 @@ theorem run_inv {cfg : Cfg} (hcfg : cfgOk cfg = true) (hko : cfg.keyByObj = true
   | nil => intro s h; exact h
   | cons op ops ih => intro s h; exact ih _ (step_inv hcfg hko hal h op)
 
-theorem emptyState_inv (cfg : Cfg) : Inv cfg emptyState := by
-  refine ⟨?_, ?_, ?_, ?_, ?_, ?_, ?_⟩ <;> intros <;> simp_all [emptyState]
-
-theorem initState_inv {cfg : Cfg} (hcfg : cfgOk cfg = true) : Inv cfg (initState cfg) := by
+theorem initState_inv {cfg : Cfg} (hcfg : cfgOk cfg = true) (hmk : ∃ c, mkConf cfg false [] = .ok c) :
+    Inv cfg (initState cfg) := by
+  obtain ⟨c, hm⟩ := hmk
   unfold initState
-  split
-  · rename_i c hm
-    apply syncGp_inv
-    have hc := mkConf_ok hcfg hm
-    refine ⟨?_, ?_, ?_, ?_, ?_, ?_, ?_⟩
-    · intro k c' h
-      simp only [emptyState] at h
-      by_cases e : k = 0
-      · subst e; rw [lookup_cons_eq] at h; cases h; exact hc
-      · rw [lookup_cons_ne _ _ e] at h; simp at h
-    all_goals (intros; simp_all [emptyState])
-    -- the palette cache of the fresh configuration is empty
-    rename_i k c' cls a h1 h2
-    by_cases e : k = 0
-    · subst e
-      rw [lookup_cons_eq] at h1; cases h1
-      unfold mkConf at hm
+  rw [hm]
+  simp only []
+  have hc := mkConf_ok hcfg hm
+  have hcache : c.cache = [] := by
+    unfold mkConf at hm
+    split at hm
+    · cases hm
+    · simp only [] at hm
       split at hm
       · cases hm
-      · simp only [] at hm
-        split at hm
+      · split at hm
         · cases hm
-        · split at hm
-          · cases hm
-          · cases hm
-            simp only [] at h2
-            have h3 := (addItems_fields ((emptyConf false).addItems []) cfg.builtin).2.2.2
-            have h4 := (addItems_fields (emptyConf false) []).2.2.2
-            rcases h3 with h3 | h3
-            · rcases h4 with h4 | h4
-              · rw [h3, h4] at h2; simp [emptyConf] at h2
-              · rw [h3, h4] at h2; simp at h2
-            · rw [h3] at h2; simp at h2
+        · cases hm
+          simp only []
+          have h3 := (addItems_fields ((emptyConf false).addItems []) cfg.builtin).2.2.2
+          have h4 := (addItems_fields (emptyConf false) []).2.2.2
+          rcases h3 with h3 | h3
+          · rcases h4 with h4 | h4
+            · rw [h3, h4]; rfl
+            · rw [h3, h4]
+          · exact h3
+  apply syncGp_inv
+  · intro k c' h
+    simp only [emptyState] at h
+    by_cases e : k = 0
+    · subst e; rw [lookup_cons_eq] at h; cases h; exact hc
+    · rw [lookup_cons_ne _ _ e] at h; simp at h
+  · intro a p h; simp [emptyState] at h
+  · intro a p h; simp [emptyState] at h
+  · intro k c' cls a h1 h2
+    simp only [emptyState] at h1
+    by_cases e : k = 0
+    · subst e; rw [lookup_cons_eq] at h1; cases h1; rw [hcache] at h2; simp at h2
     · rw [lookup_cons_ne _ _ e] at h1; simp at h1
-  · exact emptyState_inv cfg
+  · intro cls a h; simp [emptyState] at h
+  · intro pa c' b h; simp [emptyState] at h
+  · intro _ e ec a v cols h; simp [emptyState] at h
+  · intro k c' cls a p ci h1 h2 h3; simp [emptyState] at h3
+  · intro k c' cls pa c2 b pb ci2 h1 h2 h3; simp [emptyState] at h3
+  · simp [emptyState]
 
 end PaletteState
